@@ -106,18 +106,19 @@ def laws_on_impl(T, ws, st, R):
             T.fail.append({"law": "idempotent", "words": ws, "style": st, "impl": repr(again)})
 
 
-def table_law(T, sw, rw, styles, R, which):
-    search = gen.render(sw, "Snake").encode()
-    repl = gen.render(rw, "Snake").encode()
+def table_law(T, sw, rw, styles, R, which, typed=("Snake", "Snake")):
+    """the terms are typed in any style that keeps word boundaries visible; the table must not depend on how they were typed"""
+    search = gen.render(sw, typed[0]).encode()
+    repl = gen.render(rw, typed[1]).encode()
     m = T.vmap(which, search, repl, styles)
-    R.case(("table", which, tuple(sw), tuple(rw), tuple(styles)), nontrivial=True)
+    R.case(("table", which, tuple(sw), tuple(rw), tuple(styles), typed), nontrivial=True)
     if not isinstance(m, list):
         T.fail.append({"law": "variant table", "which": which, "search": search.decode(), "replace": repl.decode(), "impl": repr(m)})
         return
     d = dict(m)
     for st in styles:
-        if st not in gen.VISIBLE:
-            continue
+        if st not in gen.VISIBLE and (len(sw) < 2 or len(rw) < 2):
+            continue            # a one-word term has the same flat and snake / kebab / camel spelling: the first inserted wins
         k = gen.render(sw, st).encode()
         v = gen.render(rw, st).encode()
         if d.get(k) != v:
@@ -188,8 +189,9 @@ def run(R):
     for i in range(pairs):
         sw, rw = g.term_pair()
         styles = r.sample(gen.STYLES14, r.randint(1, 14)) if i % 3 else list(gen.DEFAULT_STYLES)
-        table_law(T, sw, rw, styles, R, "core")
-        table_law(T, sw, rw, styles, R, "scanner")
+        typed = ("Snake", "Snake") if i % 2 == 0 else (r.choice(gen.VISIBLE), r.choice(gen.VISIBLE))
+        table_law(T, sw, rw, styles, R, "core", typed)
+        table_law(T, sw, rw, styles, R, "scanner", typed)
     # (c) non-neutral stream: only model = implementation is demanded
     nn = 1500 if quick else 40000
     for i in range(nn):
